@@ -212,3 +212,22 @@ package protocol
 //@   flag termination
 //@   requires #args: len(cmd.Args) >= 1
 //@   ensures  #nonnil: result.1 == nil ==> result.0 != nil
+
+// What a command object becomes on the wire is outside the verifier's reach (go-redis); the kind of command and
+// the options it carries are tracked as ghost state of the returned command (assumed for Command methods).
+//@ import redis "github.com/redis/go-redis/v9"
+//@ ghost field redis.StatusCmd.kind string
+
+//@ func (p *Put) Command(ctx context.Context) *redis.StatusCmd
+//@   props C15
+//@   trusted
+//@   requires #recv: p != nil
+//@   ensures #kind: result != nil && fresh(result) && result.kind == "dm.put"
+//@   modifies nothing
+
+//@ func (p *PExpire) Command(ctx context.Context) *redis.StatusCmd
+//@   props C15
+//@   trusted
+//@   requires #recv: p != nil
+//@   ensures #kind: result != nil && fresh(result) && result.kind == "dm.pexpire"
+//@   modifies nothing
